@@ -43,7 +43,8 @@ def _cvc5_check(text, timeout_ms):
 
 
 def _work(item):
-    key, text, timeout_ms, expect_sat, use_cvc5 = item
+    key, text, timeout_ms, expect_sat, use_cvc5 = item[:5]
+    cross = item[5] if len(item) > 5 else False
     if expect_sat:           # reachability covers: a quick sanity query, inconclusive is acceptable
         timeout_ms, use_cvc5 = min(timeout_ms, 3000), False
     r, t, reason = _z3_check(text, timeout_ms)
@@ -53,13 +54,17 @@ def _work(item):
         t += t2
         if r2 != "unknown":
             r, backend, reason = r2, "cvc5", reason2
+    if cross and r == "unsat" and not expect_sat and backend == "z3":
+        r3, t3, _ = _cvc5_check(text, min(timeout_ms, 10000))      # independent re-check (thorough tier)
+        t += t3
+        reason = "cvc5:" + r3
     return key, r, t, backend, reason
 
 
 def discharge(obligations: dict, timeout_ms=10000, procs=None, use_cvc5=True, cross_check=False):
     """Returns key -> dict(status, time, backend, reason).  status: 'unsat' | 'sat' | 'unknown'."""
     procs = procs or min(16, os.cpu_count() or 4)
-    items = [(k, to_smt2(ob), timeout_ms, ob.expect_sat, use_cvc5) for k, ob in obligations.items()]
+    items = [(k, to_smt2(ob), timeout_ms, ob.expect_sat, use_cvc5, cross_check) for k, ob in obligations.items()]
     out = {}
     if not items:
         return out
@@ -70,12 +75,8 @@ def discharge(obligations: dict, timeout_ms=10000, procs=None, use_cvc5=True, cr
         results = ex.map(_work, items, chunksize=1)
     for key, r, t, backend, reason in results:
         out[key] = {"status": r, "time": t, "backend": backend, "reason": reason}
-    if cross_check:
-        for k, text, _, _, _ in items:
-            if out[k]["status"] == "unsat":
-                r2, t2, _ = _cvc5_check(text, timeout_ms)
-                out[k]["cvc5"] = r2
-                out[k]["time"] += t2
+        if reason.startswith("cvc5:"):
+            out[key]["cvc5"] = reason[5:]
     return out
 
 
